@@ -137,6 +137,17 @@ package objectcore
 //@ func CalculateCursor
 //@   ensures [identifier_values_are_decoded] err == nil && len(res0) > 32 && (attr == object.FilterOwnerID || attr == object.FilterFirstSplitObject || attr == object.FilterParentID || attr == object.AttributeAssociatedObject) ==> idValueDecoded()
 
+// A primary filter "attribute NOT_PRESENT" has no attribute index to walk: the shards list
+// by object ID and accept only a plain 32-byte ID cursor for such a query, so the merged
+// cursor must be the last item's ID alone.
+//@ ghost pred primaryFilterOp() int
+//@ callrule c04_primary_filter_operation in CalculateCursor
+//@   callee (object.SearchFilter).Operation, (*object.SearchFilter).Operation
+//@   pureeffect
+//@   defines result == primaryFilterOp()
+//@ func CalculateCursor
+//@   ensures [absence_filter_gets_a_plain_id_cursor] err == nil && filt != nil && primaryFilterOp() == object.MatchNotPresent ==> len(res0) == 32
+
 //@ callrule c04_merge_orders_identifier_values_by_bytes in MergeSearchResults
 //@   callee strings.Compare
 //@   pureeffect
